@@ -17,7 +17,7 @@ OBVIOUS_REDIRECTS_RE = re.compile(
     re.I,
 )
 REDIRECTION_DOMAINS_RE = re.compile(
-    r"(?:\.ampproject\.org/[cv]/(?:s/)?|bc\.marfeelcache\.com/amp/|bc\.marfeel\.com/)",
+    r"(?:\.ampproject\.org(?::\d+)?/[cv]/(?:s/)?|bc\.marfeelcache\.com(?::\d+)?/amp/|bc\.marfeel\.com(?::\d+)?/)",
     re.I,
 )
 
